@@ -34,7 +34,7 @@ func TestVerifC03Race(t *testing.T) {
 	rounds := verifrt.Scale(25, 400)
 	verifrt.SetJitter(0.25)
 	defer verifrt.SetJitter(0)
-	verifrt.SetLockSpinLimit(20_000_000)
+	verifrt.SetLockSpinLimit(2_000_000) // holders keep f.mu for micro- to milliseconds: <= ~1e3 attempts
 	defer verifrt.SetLockSpinLimit(0)
 	for rd := 0; rd < rounds; rd++ {
 		if !verifrt.WantCase(check, rd) {
@@ -76,6 +76,9 @@ func TestVerifC03Race(t *testing.T) {
 						if _, ok := r.(verifrt.LockStuck); ok {
 							kind = "lock-wait-forever"
 						}
+						if _, ok := r.(verifrt.TickPanic); ok {
+							kind = "spin-forever"
+						}
 						if addr, ok := verifrt.FaultAddr(r); ok {
 							kind = "fault"
 							if _, ok := q.Find(addr); ok {
@@ -89,6 +92,10 @@ func TestVerifC03Race(t *testing.T) {
 			}()
 		}
 		G := 8 + rnd.Intn(41)
+		// logical bound on spinning: a healthy round makes ~3e5 loop iterations
+		// in the instrumented code (lock-bit waits included); 2e8 means a
+		// goroutine waits for something that will never happen
+		verifrt.SetTickBudget(200_000_000)
 		for g := 0; g < G; g++ {
 			g := g
 			kind := g % 8
@@ -122,6 +129,8 @@ func TestVerifC03Race(t *testing.T) {
 			})
 		}
 		wg.Wait()
+		res.HitN("loop-iterations", int(verifrt.Ticks()))
+		verifrt.SetTickBudget(0)
 		res.Eval()
 		rp := verifrt.CaseReplay(rd, map[string]any{"goroutines": G, "counters": nctr, "preopen": preOpen})
 		bad := false
